@@ -658,10 +658,10 @@ theorem enabledSelectedcontent_asCode_none {d : Dom} {select : Id} {r : Option I
     | document | doctype _ _ _ | comment _ | text _ | pi _ _ =>
       simp [hdata, throw, throwThe, MonadExceptOf.throw] at h
 
-/-- DESIGN 1.3 item 11, first half: as the code stands the call never changes the DOM -/
-theorem maybeCloneOption_asCode_eq {d d' : Dom} {o : Id} (h : d.maybeCloneOption .asCode o = .ok d') :
-    d' = d := by
-  unfold Dom.maybeCloneOption at h
+/-- as the code stands, no `selectedcontent` is ever selected for mirroring -/
+theorem cloneTarget_asCode_none {d : Dom} {o : Id} {r : Option Id} (h : d.cloneTarget .asCode o = .ok r) :
+    r = none := by
+  unfold Dom.cloneTarget at h
   simp only [bind, Except.bind] at h
   cases ho : d.get o with
   | error e => simp [ho] at h
@@ -690,5 +690,171 @@ theorem maybeCloneOption_asCode_eq {d d' : Dom} {o : Id} (h : d.maybeCloneOption
               exact h.symm
     | document | doctype _ _ _ | comment _ | text _ | pi _ _ =>
       simp [hdata, throw, throwThe, MonadExceptOf.throw] at h
+
+/-- DESIGN 1.3 item 11, first half: as the code stands the call never changes the DOM -/
+theorem maybeCloneOption_asCode_eq {d d' : Dom} {o : Id} (h : d.maybeCloneOption .asCode o = .ok d') :
+    d' = d := by
+  unfold Dom.maybeCloneOption at h
+  simp only [bind, Except.bind] at h
+  cases ht : d.cloneTarget .asCode o with
+  | error e => simp [ht] at h
+  | ok r =>
+    have := cloneTarget_asCode_none ht
+    subst this
+    simp [ht] at h
+    exact h.symm
+
+/-! ### one sink call preserves `WF` under the TreeSink contract -/
+
+theorem lt_of_dataOf_some {d : Dom} {x : Id} {v : NodeData} (h : d.dataOf x = some v) : x < d.size := by
+  rw [dataOf_eq] at h
+  cases hn : d.node? x with
+  | none => simp [hn] at h
+  | some n => exact node?_lt hn
+
+theorem lt_of_isContainer {d : Dom} {x : Id} (h : d.isContainer x = true) : x < d.size := by
+  unfold Dom.isContainer at h
+  cases hd : d.dataOf x with
+  | none => simp [hd] at h
+  | some v => exact lt_of_dataOf_some hd
+
+theorem lt_of_isElement {d : Dom} {x : Id} (h : d.isElement x = true) : x < d.size := by
+  unfold Dom.isElement at h
+  cases hd : d.dataOf x with
+  | none => simp [hd] at h
+  | some v => exact lt_of_dataOf_some hd
+
+theorem WF.append {d d' : Dom} (hw : WF d) {p : Id} {ch : NodeOrText}
+    (hc : d.contractAppend p ch = true) (h : d.append p ch = .ok d') : WF d' := by
+  cases ch with
+  | text s => exact hw.append_text h
+  | node c =>
+    rw [append_node_eq] at h
+    simp only [Dom.contractAppend, Dom.childOk, Bool.and_eq_true, Bool.not_eq_true'] at hc
+    exact hw.appendRaw (not_anc_of_isAncOrSelf_false hw (lt_of_isContainer hc.1) hc.2.2) h
+
+theorem WF.appendBeforeSibling {d d' : Dom} (hw : WF d) {s : Id} {ch : NodeOrText}
+    (hc : d.contractAppendBeforeSibling s ch = true) (h : d.appendBeforeSibling s ch = .ok d') : WF d' := by
+  obtain ⟨P, i, hpar, _, hPlt, hm⟩ := appendBeforeSibling_ok h
+  simp only [Dom.contractAppendBeforeSibling, hpar, Bool.and_eq_true] at hc
+  cases ch with
+  | text t => exact hw.appendBeforeSibling_text hPlt hm
+  | node c =>
+    simp only [Dom.childOk, Bool.and_eq_true, Bool.not_eq_true'] at hc
+    exact hw.insertAtIndex (not_anc_of_isAncOrSelf_false hw hPlt hc.2.1.2.2) hm
+
+theorem appendBasedOnParentNode_eq {d : Dom} {e p : Id} {ch : NodeOrText} {r : Except String Dom}
+    (h : d.appendBasedOnParentNode e p ch = r) (he : e < d.size) :
+    r = if (d.parentOf e).isSome then d.appendBeforeSibling e ch else d.append p ch := by
+  obtain ⟨en, hen⟩ := node?_of_lt he
+  unfold Dom.appendBasedOnParentNode at h
+  simp only [bind, Except.bind, get_ok_of hen] at h
+  rw [parentOf_of_node hen, ← h]
+
+theorem WF.applyV_asCode {d d' : Dom} {op : SinkOp} {out : Output} (hw : WF d)
+    (hc : d.contractOk op = true) (h : d.applyV .asCode op = .ok (d', out)) : WF d' := by
+  cases op with
+  | parseError msg =>
+    simp [Dom.applyV] at h; obtain ⟨h, _⟩ := h; subst h
+    exact hw.congr (fun _ => rfl) (fun _ => rfl)
+  | getDocument => simp [Dom.applyV] at h; obtain ⟨h, _⟩ := h; subst h; exact hw
+  | elemName t =>
+    simp only [Dom.applyV, bind, Except.bind] at h
+    cases he : d.elemName t with
+    | error e => simp [he] at h
+    | ok v => simp [he] at h; obtain ⟨h, _⟩ := h; subst h; exact hw
+  | createElement name attrs flags =>
+    simp [Dom.applyV] at h; obtain ⟨h, _⟩ := h; subst h
+    have := createElement_shape d name attrs flags
+    exact hw.congr this.parent this.children
+  | createComment text =>
+    simp [Dom.applyV, Dom.createComment] at h; obtain ⟨h, _⟩ := h; subst h; exact hw.alloc _
+  | createPi t dd =>
+    simp [Dom.applyV, Dom.createPi] at h; obtain ⟨h, _⟩ := h; subst h; exact hw.alloc _
+  | append p c =>
+    simp only [Dom.applyV, bind, Except.bind] at h
+    cases ha : d.append p c with
+    | error e => simp [ha] at h
+    | ok d1 =>
+      simp [ha] at h; obtain ⟨h, _⟩ := h; subst h
+      exact hw.append (by simpa [Dom.contractOk] using hc) ha
+  | appendBasedOnParentNode e p c =>
+    simp only [Dom.applyV, bind, Except.bind] at h
+    cases ha : d.appendBasedOnParentNode e p c with
+    | error err => simp [ha] at h
+    | ok d1 =>
+      simp [ha] at h; obtain ⟨h, _⟩ := h; subst h
+      simp only [Dom.contractOk, Bool.and_eq_true] at hc
+      have := appendBasedOnParentNode_eq ha (lt_of_isElement hc.1.1)
+      by_cases hp : (d.parentOf e).isSome = true
+      · simp only [hp, if_true] at this hc
+        exact hw.appendBeforeSibling hc.2 this.symm
+      · simp only [hp] at this hc
+        exact hw.append hc.2 this.symm
+  | appendDoctypeToDocument n p s =>
+    simp only [Dom.applyV, bind, Except.bind, Dom.appendDoctypeToDocument] at h
+    cases ha : (d.alloc (NodeData.doctype n p s)).1.appendRaw Dom.document (d.alloc (NodeData.doctype n p s)).2 with
+    | error err => simp [ha] at h
+    | ok d1 =>
+      simp [ha] at h; obtain ⟨h, _⟩ := h; subst h
+      rw [alloc_id] at ha
+      simp only [Dom.contractOk, Bool.and_eq_true] at hc
+      have hdoc : Dom.document < d.size := lt_of_isContainer hc.1
+      exact hw.allocAppend hdoc ha
+  | markScriptAlreadyStarted n => simp [Dom.applyV] at h; obtain ⟨h, _⟩ := h; subst h; exact hw
+  | pop n => simp [Dom.applyV] at h; obtain ⟨h, _⟩ := h; subst h; exact hw
+  | getTemplateContents t =>
+    simp only [Dom.applyV, bind, Except.bind] at h
+    cases he : d.getTemplateContents t with
+    | error e => simp [he] at h
+    | ok v => simp [he] at h; obtain ⟨h, _⟩ := h; subst h; exact hw
+  | sameNode x y => simp [Dom.applyV] at h; obtain ⟨h, _⟩ := h; subst h; exact hw
+  | setQuirksMode m =>
+    simp [Dom.applyV] at h; obtain ⟨h, _⟩ := h; subst h
+    exact hw.congr (fun _ => rfl) (fun _ => rfl)
+  | appendBeforeSibling s c =>
+    simp only [Dom.applyV, bind, Except.bind] at h
+    cases ha : d.appendBeforeSibling s c with
+    | error e => simp [ha] at h
+    | ok d1 =>
+      simp [ha] at h; obtain ⟨h, _⟩ := h; subst h
+      exact hw.appendBeforeSibling (by simpa [Dom.contractOk] using hc) ha
+  | addAttrsIfMissing t a =>
+    simp only [Dom.applyV, bind, Except.bind] at h
+    cases ha : d.addAttrsIfMissing t a with
+    | error e => simp [ha] at h
+    | ok d1 =>
+      simp [ha] at h; obtain ⟨h, _⟩ := h; subst h
+      obtain ⟨_, _, _, _, _, hs, _, _⟩ := addAttrsIfMissing_ok ha
+      exact hw.congr hs.parent hs.children
+  | associateWithForm _ _ _ _ => simp [Dom.applyV] at h; obtain ⟨h, _⟩ := h; subst h; exact hw
+  | removeFromParent t =>
+    simp only [Dom.applyV, bind, Except.bind] at h
+    cases ha : d.removeFromParent t with
+    | error e => simp [ha] at h
+    | ok d1 => simp [ha] at h; obtain ⟨h, _⟩ := h; subst h; exact hw.removeFromParent ha
+  | reparentChildren n np =>
+    simp only [Dom.applyV, bind, Except.bind] at h
+    cases ha : d.reparentChildren n np with
+    | error e => simp [ha] at h
+    | ok d1 =>
+      simp [ha] at h; obtain ⟨h, _⟩ := h; subst h
+      simp only [Dom.contractOk, Bool.and_eq_true, Bool.not_eq_true'] at hc
+      exact hw.reparentChildren (not_anc_of_isAncOrSelf_false hw (lt_of_isContainer hc.1.2) hc.2) ha
+  | isMathmlAnnotationXmlIntegrationPoint t =>
+    simp only [Dom.applyV, bind, Except.bind] at h
+    cases he : d.isMathmlAnnotationXmlIntegrationPoint t with
+    | error e => simp [he] at h
+    | ok v => simp [he] at h; obtain ⟨h, _⟩ := h; subst h; exact hw
+  | setCurrentLine _ => simp [Dom.applyV] at h; obtain ⟨h, _⟩ := h; subst h; exact hw
+  | allowDeclarativeShadowRoots _ => simp [Dom.applyV] at h; obtain ⟨h, _⟩ := h; subst h; exact hw
+  | attachDeclarativeShadow _ _ _ => simp [Dom.applyV] at h; obtain ⟨h, _⟩ := h; subst h; exact hw
+  | maybeCloneAnOptionIntoSelectedcontent o =>
+    simp only [Dom.applyV, bind, Except.bind] at h
+    cases ha : d.maybeCloneOption .asCode o with
+    | error e => simp [ha] at h
+    | ok d1 =>
+      simp [ha] at h; obtain ⟨h, _⟩ := h; subst h
+      rw [maybeCloneOption_asCode_eq ha]; exact hw
 
 end H5V.Lemmas.Dom
